@@ -4,7 +4,7 @@ the automatic-reconnection automaton over a script of per-attempt outcomes.
 Time in milliseconds; delays in seconds as in the code (`reconnect_delay_set(min, max)`).
 Keep-alive is off in this model (keepalive = 0): it is C08's subject.
 -/
-import Paho.Gen.Consts
+import Paho.Gen.Backoff
 namespace Paho.LF
 
 /-- where the application calls `disconnect()` during an attempt -/
